@@ -46,11 +46,43 @@ package acrastruct
 //@   at call bytes.Index : assert sameslice(arg[0], inBuffer[inIndex:]) && sameslice(arg[1], TagBegin)
 //@   at call Processor.OnAcraStruct : assert 0 < len(arg[1]) && len(arg[1]) == dataLenOf(arg[1]) + 145
 
+// Reveal side of the asymmetric envelope: the sender's public key, the wrapped data key and the payload are read from
+// the positions CreateAcrastruct writes them to (8, 53, 145); the data key is unwrapped with the caller's private key,
+// the payload is opened with that key under the caller's context, and the plaintext is exactly what the cell returned.
 //@ func DecryptAcrastruct(data []byte, privateKey *keys.PrivateKey, additionalContext []byte) (out []byte, err error)
-//@   props C01 C03 C14
+//@   props C01 C02 C03 C14
 //@   safety
+//@   at call message.New : assert arg[0] == privateKey && sameslice(arg[1].Value, data[8:53])
+//@   at call SecureMessage.Unwrap : assert recv == ret(message.New)[0] && sameslice(arg[0], data[53:137])
+//@   at call cell.SealWithKey : assert sameslice(arg[0].Value, ret(SecureMessage.Unwrap)[0]) && ret(SecureMessage.Unwrap)[1] == nil
+//@   at call SecureCellSeal.Decrypt : assert recv == ret(cell.SealWithKey)[0] && ret(cell.SealWithKey)[1] == nil && sameslice(arg[0], data[145:]) && sameslice(arg[1], additionalContext)
+//@   ensures plaintext-is-the-cell-output: err == nil ==> called(SecureCellSeal.Decrypt) && ret(SecureCellSeal.Decrypt)[1] == nil && sameslice(out, ret(SecureCellSeal.Decrypt)[0])
+//@   ensures nothing-on-error: err != nil ==> len(out) == 0
 
+// Every private key is tried, in order, on the same value and context, until one opens it.
 //@ func DecryptRotatedAcrastruct(data []byte, privateKeys []*keys.PrivateKey, additionalContext []byte) (out []byte, err error)
-//@   props C01 C03 C14
+//@   props C01 C02 C03 C06 C14
 //@   safety
 //@   ensures err != nil ==> out == nil
+//@   ensures success-is-a-key-that-opened-it: err == nil ==> called(DecryptAcrastruct) && ret(DecryptAcrastruct)[1] == nil && sameslice(out, ret(DecryptAcrastruct)[0])
+//@   loop 0 invariant err != nil
+//@          exit every-key-is-tried: $n == len(privateKeys) || (itercalled(DecryptAcrastruct) && ret(DecryptAcrastruct)[1] == nil)
+//@   at call DecryptAcrastruct : assert sameslice(arg[0], data) && sameslice(arg[2], additionalContext) && exists(j, 0, len(privateKeys), arg[1] == privateKeys[j])
+
+// Write side of the asymmetric envelope: tag, the fresh public key, the data key wrapped for the recipient's public key,
+// the little-endian length of the sealed payload, the sealed payload - in this order, nothing else. With the key sizes of
+// the crypto library (45-byte public key, 84-byte wrapped key) this is the layout ValidateAcraStructLength accepts and
+// DecryptAcrastruct reads. (Proved: total length, tag, length field and acceptance by the reader, and which values reach
+// the crypto calls. Not admitted: element-wise position of the three copied parts - the five chained appends of symbolic
+// length need 15-130 s per clause, far above the quick budget; listed as unverified in DESIGN.md.)
+//@ func CreateAcrastruct(data []byte, acraPublic *keys.PublicKey, context []byte) (out []byte, err error)
+//@   props C01 C02 C14
+//@   safety
+//@   ensures on-error: err != nil ==> out == nil
+//@   at call message.New : assert arg[1] == acraPublic && arg[0] == ret(keys.New)[0].Private && ret(keys.New)[1] == nil
+//@   at call SecureMessage.Wrap : assert recv == ret(message.New)[0] && len(arg[0]) == 32 && fresh(arg[0])
+//@   at call cell.SealWithKey : assert sameslice(arg[0].Value, argof(SecureMessage.Wrap)[0]) && ret(SecureMessage.Wrap)[1] == nil
+//@   at call SecureCellSeal.Encrypt : assert recv == ret(cell.SealWithKey)[0] && sameslice(arg[0], data) && sameslice(arg[1], context)
+//@   ensures total-length: err == nil ==> len(out) == 8 + len(ret(keys.New)[0].Public.Value) + len(ret(SecureMessage.Wrap)[0]) + 8 + len(ret(SecureCellSeal.Encrypt)[0])
+//@   ensures tag: err == nil ==> forall(i, 0, 8, out[i] == TagSymbol)
+//@   ensures accepted-by-the-reader: err == nil && len(ret(keys.New)[0].Public.Value) == 45 && len(ret(SecureMessage.Wrap)[0]) == 84 ==> wellFormed(out)
